@@ -34,6 +34,9 @@ pub fn all(quick: bool) -> Vec<Scenario> {
     v.extend(timelimit(quick));
     v.extend(wait(quick));
     v.extend(misc(quick));
+    if !quick {
+        v.extend(grid());
+    }
     v
 }
 
@@ -52,6 +55,13 @@ pub fn family(name: &str, quick: bool) -> Vec<Scenario> {
         "wait" => wait(quick),
         "misc" => misc(quick),
         "journal" => journal(quick),
+        "grid" => {
+            if quick {
+                vec![]
+            } else {
+                grid()
+            }
+        }
         _ => vec![],
     }
 }
@@ -789,6 +799,54 @@ pub fn journal(quick: bool) -> Vec<Scenario> {
             .journal()
             .budgets(1, 0, 0, 1),
         );
+    }
+    v
+}
+
+/// Thorough tier only: the cross product of small cluster shapes, pre-sending modes, workloads and
+/// a concurrent cancel, each with one loss, one failing task and one joining worker allowed (two
+/// deviations in total), explored to a stated depth. Its purpose is to reach combinations nobody
+/// thought of when writing the named scenarios above.
+pub fn grid() -> Vec<Scenario> {
+    let depth = std::env::var("HQMC_GRID_DEPTH").ok().and_then(|s| s.parse().ok()).unwrap_or(11usize);
+    let workers: Vec<(&str, Vec<WorkerSpec>)> = vec![
+        ("1w", vec![w(1)]),
+        ("1w+s", vec![w(1), w(1).spare()]),
+        ("2w", vec![w(1), w(1)]),
+        ("w2", vec![w(2)]),
+    ];
+    let prefills: Vec<(&str, Option<(u32, u32)>)> = vec![("pd", None), ("p11", Some((1, 1))), ("p02", Some((0, 2)))];
+    let fork: &[(u32, &[u32])] = &[(0, &[]), (1, &[0]), (2, &[0])];
+    let loads: Vec<(&str, Vec<Req>)> = vec![
+        ("a3", vec![sub(arr(&[0, 1, 2], 1))]),
+        ("a2h", vec![sub(arr(&[0, 1], 1)), sub(arr(&[0], 1).prio(5))]),
+        ("a2a1", vec![sub(arr(&[0, 1], 1)), sub(arr(&[0], 1))]),
+        ("fork", vec![sub(SubmitSpec::graph(fork, RqSpec::cpus(1)))]),
+        ("mf0", vec![sub(arr(&[0, 1, 2], 1).max_fails(0))]),
+        ("cl1", vec![sub(arr(&[0, 1], 1).crash_limit("1"))]),
+    ];
+    let mut v = Vec::new();
+    for (wn, ws) in &workers {
+        for (pn, pf) in &prefills {
+            for (ln, load) in &loads {
+                for cancel in [false, true] {
+                    let mut clients = vec![load.clone()];
+                    if cancel {
+                        clients.push(vec![Req::Cancel(1)]);
+                    }
+                    let name = format!("grid-{wn}-{pn}-{ln}{}", if cancel { "-c" } else { "" });
+                    let has_spare = ws.iter().any(|w| !w.initial);
+                    let mut sc = Scenario::new(&name, ws.clone(), clients)
+                        .budgets(1, 1, if has_spare { 1 } else { 0 }, 2)
+                        .depth(depth)
+                        .cap(400_000);
+                    if let Some((r, m)) = pf {
+                        sc = sc.prefill(*r, *m);
+                    }
+                    v.push(sc);
+                }
+            }
+        }
     }
     v
 }
